@@ -151,10 +151,8 @@ theorem flushStep_keyFrom {k : Key} {P : Option Val → Prop} {b0 : Option Val} 
   | fail F T ps =>
     refine ⟨?_, h.2.2⟩
     intro ov hov
-    have e : layerSays { F with mem := mapCopy T.mem F.mem, stor := mapCopy T.stor F.stor } k
-        = layerSays (T.putCS F.mem F.stor) k := rfl
-    rw [e, layerSays_putCS T F.mem F.stor hw.1.1 hw.1.2.1] at hov
-    cases hs : layerSays { priv := false, mem := F.mem, stor := F.stor } k with
+    rw [layerSays_fill] at hov
+    cases hs : layerSays F k with
     | none => rw [hs] at hov; exact h.2.1 ov hov
     | some x => rw [hs] at hov; have e := Option.some.inj hov; subst e; exact h.1 _ hs
   | whole L ps =>
